@@ -2,8 +2,9 @@
 //
 // Engine B: bounded-exhaustive enumeration of (command template) x (variable values) x (exit status)
 // x (restart) on the REAL externalcmd.Cmd (and, in part B, on the real hooks.On* constructors), which
-// spawn a helper mode of this very binary. The helper dumps its argv and its whole environment
-// (byte exact, gob) to a file and exits with the requested status.
+// spawn a helper (a tiny program compiled at start from helperSource below; if that is not possible,
+// this very binary in helper mode). The helper dumps its argv and its whole environment (byte exact,
+// length-prefixed) to a file and exits with the requested status.
 //
 // Reference model, from the statement only:
 //   - every variable of the hook environment is present in the child environment with exactly its value;
@@ -401,20 +402,20 @@ func checkEnv(what string, want map[string]string, accept func(k, got string) bo
 			n++
 			got := e[len(k)+1:]
 			if got != wv && !(accept != nil && accept(k, got)) {
-				r.Violation("env-value-altered-"+valueClass(wv), fmt.Sprintf("%s: environment variable %s = %q in the command, the server passed %q",
+				r.Violation("env-value-altered-"+k, fmt.Sprintf("%s: environment variable %s = %q in the command, the server passed %q",
 					what, k, vcommon.Short(got, 200), vcommon.Short(wv, 200)), rep)
 			}
 		}
 		if n == 0 {
-			r.Violation("env-missing", fmt.Sprintf("%s: environment variable %s (value %q) not in the command's environment", what, k, vcommon.Short(wv, 200)), rep)
+			r.Violation("env-missing-"+k, fmt.Sprintf("%s: environment variable %s (value %q) not in the command's environment", what, k, vcommon.Short(wv, 200)), rep)
 		}
 	}
 }
 
 func checkArgs(what, tname string, want [][]string, got []string, vclass string, rep map[string]any) {
 	if len(got) != len(want[0]) {
-		r.Violation("argv-split-changed-"+tname+"-"+vclass, fmt.Sprintf("%s: %d arguments reached the command, the template has %d: %q",
-			what, len(got), len(want[0]), shortAll(got)), rep)
+		r.Violation("argv-split-changed-"+tname, fmt.Sprintf("%s [value class %s]: %d arguments reached the command, the template has %d: %q",
+			what, vclass, len(got), len(want[0]), shortAll(got)), rep)
 		return
 	}
 	for i := range got {
@@ -425,7 +426,7 @@ func checkArgs(what, tname string, want [][]string, got []string, vclass string,
 			}
 		}
 		if !ok {
-			r.Violation("argv-value-altered-"+tname+"-"+vclass, fmt.Sprintf("%s: argument %d is %q, want %q", what, i,
+			r.Violation("argv-value-altered-"+tname, fmt.Sprintf("%s [value class %s]: argument %d is %q, want %q", what, vclass, i,
 				vcommon.Short(got[i], 200), vcommon.Short(want[0][i], 200)), rep)
 		}
 	}
@@ -488,7 +489,7 @@ func runA(c caseA) {
 	rep["on_exit"] = res.exitErrs
 	vc := valueClass(c.v)
 	if !res.ran {
-		r.Violation("command-not-run-"+c.t.name+"-"+vc, fmt.Sprintf("%s: the command did not run (OnExit: %q)", what, res.exitErrs), rep)
+		r.Violation("command-not-run-"+c.t.name, fmt.Sprintf("%s: the command did not run (OnExit: %q)", what, res.exitErrs), rep)
 		return
 	}
 	rep["argv"] = shortAll(res.d.Args)
@@ -653,7 +654,7 @@ func runB(c caseB) {
 			vcommon.Short(c.v, 40), vcommon.Short(c.w, 40), vcommon.Short(c.q, 40), vcommon.Short(c.id, 40), c.status, c.restart)
 		d, err := readDump(out)
 		if err != nil {
-			r.Violation("hook-command-not-run-"+c.hook+"-"+phase+"-"+vc, fmt.Sprintf("%s: the command did not run; log %q", what, lines), rep)
+			r.Violation("hook-command-not-run-"+c.hook+"-"+phase, fmt.Sprintf("%s: the command did not run; log %q", what, lines), rep)
 			continue
 		}
 		checkEnv(what, want, acceptEnv, d, rep)
@@ -706,16 +707,18 @@ func main() {
 	os.Setenv("MTX_SEGMENT_PATH", "outer-segment")
 
 	values := []string{"x", "a b", `a"b`, `a'b`, "$G1", "${G1}", `a\b`, "\t", "line1\nline2", ";rm -rf /", "", "é",
-		strings.Repeat("0123456789abcdef", 256), "\xff\xfe", "*", "a  b", " lead", "trail ", "-flag", "$(id)", "`id`", "a=b",
-		"%20", "&|><", "#c", "~", "$MTX_PATH", "$", "${", `\`, `"`, `'`, `a\ b`, "$$", "'; echo pwned; '"}
+		strings.Repeat("0123456789abcdef", 256), "\xff\xfe", "*", "$(id)", "$MTX_PATH", `a\ b`, "'; echo pwned; '", " lead"}
 	ws := []string{"w w", "$MTX_PATH"}
-	statusesMain := []int{0}
-	restartsMain := []bool{false}
+	type sr struct {
+		status  int
+		restart bool
+	}
+	mainSR := []sr{{0, false}}
 	sweep := []int{0, 1, 2, 3, 42, 126, 127, 128, 130, 255}
 	if r.Thorough() {
+		values = append(values, "a  b", "trail ", "-flag", "`id`", "a=b", "%20", "&|><", "#c", "~", "$", "${", `\`, `"`, `'`, "$$")
 		ws = append(ws, "")
-		statusesMain = []int{0, 3}
-		restartsMain = []bool{false, true}
+		mainSR = []sr{{0, false}, {3, false}, {3, true}}
 		sweep = nil
 		for s := 0; s < 256; s++ {
 			sweep = append(sweep, s)
@@ -724,13 +727,16 @@ func main() {
 
 	var as []caseA
 	for _, t := range templates {
+		refsW := strings.Contains(t.tail, "G1")
 		for vi, v := range values {
 			for wi, w := range ws {
+				if !r.Thorough() && !refsW && wi != vi%len(ws) {
+					// quick: templates that do not reference G1 get one G1 value per MTX_PATH value (alternating)
+					continue
+				}
 				q := values[(vi+wi+7)%len(values)]
-				for _, st := range statusesMain {
-					for _, rs := range restartsMain {
-						as = append(as, caseA{t: t, v: v, w: w, q: q, status: st, restart: rs})
-					}
+				for _, x := range mainSR {
+					as = append(as, caseA{t: t, v: v, w: w, q: q, status: x.status, restart: x.restart})
 				}
 			}
 		}
@@ -739,11 +745,8 @@ func main() {
 	// exit status sweep
 	for _, st := range sweep {
 		for _, rs := range []bool{false, true} {
-			for _, ti := range []int{0, 10, 13} {
-				for _, v := range []string{"x", "a b"} {
-					as = append(as, caseA{t: templates[ti], v: v, w: "w w", q: "k=v", status: st, restart: rs})
-				}
-			}
+			as = append(as, caseA{t: templates[0], v: "a b", w: "w w", q: "k=v", status: st, restart: rs})
+			as = append(as, caseA{t: templates[13], v: "x", w: "w w", q: "k=v", status: st, restart: rs})
 		}
 	}
 	// hooks
@@ -775,11 +778,12 @@ func main() {
 	r.Rule = fmt.Sprintf("part A: full product of %d command templates (bare/braced/double-quoted/single-quoted/escaped/infix/adjacent references, "+
 		"references next to quoted words, option style, sh -c style, command taken from a variable, no reference) x %d values of MTX_PATH "+
 		"(spaces, quotes, backslashes, $VAR/${VAR} look-alikes, shell metacharacters, newline, tab, empty, non-UTF-8, 4 KiB) x %d values of G1, "+
-		"with MTX_QUERY rotating over the same values, exit status %v, restart %v; plus an exit status sweep %d statuses x restart{false,true} x 3 templates x 2 values; "+
+		"with MTX_QUERY rotating over the same values [quick: templates without a G1 reference get one G1 value per MTX_PATH value], (exit status, restart) in %v; "+
+		"plus an exit status sweep %d statuses x restart{false,true} x 2 templates; "+
 		"part B: the 6 hook constructors of internal/hooks (start and stop commands) x %d value tuples x statuses %v x restart %v. "+
-		"Each case spawns the harness binary in helper mode through the real externalcmd.Cmd. "+
+		"Each case spawns the hook command (a stand-alone helper compiled from the harness's own helper source, else the harness binary in helper mode) through the real externalcmd.Cmd. "+
 		"distinct = (part, template or hook, value class, exit status, restart)",
-		len(templates), len(values), len(ws), statusesMain, restartsMain, len(sweep), len(hv), hst, hrs)
+		len(templates), len(values), len(ws), mainSR, len(sweep), len(hv), hst, hrs)
 
 	// process spawning is bounded and runs in parallel
 	vcommon.Parallel(len(as), func(i int) { runA(as[i]) })
